@@ -178,6 +178,28 @@ def fuse_comprehensions(t: "T") -> "T":
     return T(t.op, t.name, args, kw, t.node)
 
 
+def align_positions(t: "T") -> "T":
+    """Element k / position k of `enumerate(X)`:  `for i, x in enumerate(X)` -> x == each(X), i == pos(X'), where X' is the
+    sequence X was built from element by element (a comprehension keeps length and order).  Afterwards comprehensions are
+    fused, so `p for i, p in enumerate([c.a for c in cells])` and `c.a for c in cells` are the same element."""
+    def seqroot(x):
+        while x.op == "comp" and len(x.args) == 2:
+            x = x.args[1]
+        return x
+
+    def walk(x):
+        if not x.args and not x.kw:
+            return x
+        if x.op == "item" and x.name in (0, 1) and x.args and x.args[0].op == "elem" and x.args[0].args[0].op == "call" and \
+                x.args[0].args[0].name == "enumerate" and len(x.args[0].args[0].args) == 1:
+            seq = walk(x.args[0].args[0].args[0])
+            if x.name == 1:
+                return T("elem", None, [seq], node=x.node)
+            return T("pos", None, [seqroot(seq)], node=x.node)
+        return T(x.op, x.name, [walk(a) for a in x.args], {k: walk(v) for k, v in x.kw.items()}, x.node)
+    return fuse_comprehensions(walk(t))
+
+
 def nest(t: "T", *names) -> bool:
     """True if nodes named names[0], names[1], ... occur nested in this order (each inside the previous one).  A name
     matches a call / method call / attribute of that name, `each` matches an element-of, `param:x` a parameter."""
